@@ -6,6 +6,6 @@ CONSTANTS
   MaxNodes = 3
   FixArchiveAncestors = FALSE
   DirLists = {{"x"}, {"x", "y"}, {""}}
-INVARIANTS ArchiveAgrees ListedIsReachable DirAssetsAgree
+INVARIANTS ArchiveAgrees ListedIsReachable ParentIdAgrees DirAssetsAgree
 VIEW View
 CHECK_DEADLOCK FALSE
